@@ -11,6 +11,71 @@
 //!     `v.push(x)`, `v.len()`, `m.insert(k, v)`, `Arc::new(x)`;
 //!   * `for _ in lo..hi { body }` / `for i in lo..hi { body }` in READ mode → `Rs.R.forRange`.
 use super::*;
+use std::cell::RefCell;
+
+thread_local! {
+    /// enum variant "Enum::Variant" → names of its named fields, in declaration order
+    static VARIANT_FIELDS: RefCell<HashMap<String, Vec<String>>> = RefCell::new(HashMap::new());
+    /// Lean names of the generated functions that take the `ext` parameter
+    static EXT_FNS: RefCell<HashSet<String>> = RefCell::new(HashSet::new());
+}
+
+pub(crate) fn register_variant_fields(e: &ItemEnum) {
+    for v in e.variants.iter().filter(|v| cfg_on(&v.attrs)) {
+        if let Fields::Named(n) = &v.fields {
+            let names: Vec<String> = n.named.iter().map(|f| f.ident.as_ref().unwrap().to_string()).collect();
+            VARIANT_FIELDS.with(|m| m.borrow_mut().insert(format!("{}::{}", e.ident, v.ident), names));
+        }
+    }
+}
+fn variant_fields(en: &str, v: &str) -> Option<Vec<String>> {
+    VARIANT_FIELDS.with(|m| m.borrow().get(&format!("{en}::{v}")).cloned())
+}
+pub(crate) fn mark_ext_fn(lean: &str) {
+    EXT_FNS.with(|s| { s.borrow_mut().insert(lean.to_string()); });
+}
+pub(crate) fn is_ext_fn(lean: &str) -> bool {
+    EXT_FNS.with(|s| s.borrow().contains(lean))
+}
+
+/// Is one of the parameters an `io::Take<..>`?
+pub(crate) fn has_take_param(sig: &Signature) -> bool {
+    sig.inputs.iter().any(|a| matches!(a, FnArg::Typed(t) if matches!(&*t.ty, Type::Path(p) if path_last(&p.path) == "Take")))
+}
+
+/// Does a `match` used as a value leave the function successfully from one of its arms (`return Ok(..)`), directly
+/// or from a nested `match`?
+pub(crate) fn match_escapes(reg: &Registry, m: &ExprMatch) -> bool {
+    struct V<'r> { reg: &'r Registry, found: bool }
+    impl<'r, 'ast> syn::visit::Visit<'ast> for V<'r> {
+        fn visit_expr(&mut self, e: &'ast Expr) {
+            if let Expr::Return(r) = e {
+                let is_err = match r.expr.as_deref() {
+                    Some(Expr::Call(c)) => match &*c.func {
+                        Expr::Path(p) if p.path.segments.len() == 1 => {
+                            let f = path_last(&p.path);
+                            f == "Err" || self.reg.errfns.contains_key(&f)
+                        }
+                        _ => false,
+                    },
+                    _ => false,
+                };
+                if !is_err {
+                    self.found = true;
+                }
+            }
+            if matches!(e, Expr::Closure(_)) {
+                return;
+            }
+            syn::visit::visit_expr(self, e);
+        }
+    }
+    let mut v = V { reg, found: false };
+    for a in &m.arms {
+        syn::visit::Visit::visit_expr(&mut v, &a.body);
+    }
+    v.found
+}
 
 /// Does the signature take the reader BY VALUE (`mut reader: R`, `R` a type parameter of the function or of the
 /// enclosing impl)?  Returns the parameter's name.
@@ -36,6 +101,61 @@ pub(crate) fn owned_reader(sig: &Signature, impl_generics: Option<&Generics>) ->
         }
     }
     None
+}
+
+/// `reader: &mut (impl Read [+ Seek])`: index among the typed parameters, name, Seek?
+pub(crate) fn impl_reader(sig: &Signature) -> Option<(usize, String, bool)> {
+    let mut k = 0;
+    for a in &sig.inputs {
+        if let FnArg::Typed(t) = a {
+            if let Type::Reference(r) = &*t.ty {
+                let mut elem = &*r.elem;
+                while let Type::Paren(p) = elem {
+                    elem = &*p.elem;
+                }
+                if let (Some(_), Type::ImplTrait(it)) = (&r.mutability, elem) {
+                    let mut read = false;
+                    let mut seek = false;
+                    let mut other = false;
+                    for b in &it.bounds {
+                        match b {
+                            TypeParamBound::Trait(tb) => match path_last(&tb.path).as_str() {
+                                "Read" => read = true,
+                                "Seek" => seek = true,
+                                _ => other = true,
+                            },
+                            _ => other = true,
+                        }
+                    }
+                    if read && !other {
+                        if let Pat::Ident(id) = &*t.pat {
+                            return Some((k, id.ident.to_string(), seek));
+                        }
+                    }
+                }
+            }
+            k += 1;
+        }
+    }
+    None
+}
+
+/// Does the body perform `place.store(v)` (an `AtomicU64` cell of a shared structure)?
+struct HasStore {
+    found: bool,
+}
+impl<'ast> syn::visit::Visit<'ast> for HasStore {
+    fn visit_expr_method_call(&mut self, m: &'ast ExprMethodCall) {
+        if m.method == "store" && m.args.len() == 1 && matches!(&*m.receiver, Expr::Field(_)) {
+            self.found = true;
+        }
+        syn::visit::visit_expr_method_call(self, m);
+    }
+}
+pub(crate) fn has_store(b: &Block) -> bool {
+    let mut v = HasStore { found: false };
+    syn::visit::Visit::visit_block(&mut v, b);
+    v.found
 }
 
 /// Look-ahead for `let mut x = Vec::with_capacity(..)`: a structure literal of a registered structure with a
@@ -143,6 +263,41 @@ impl<'a> Tr<'a> {
             return Ok(None);
         }
         let name = m.method.to_string();
+        // `p.cell.store(v)`: `p` a `&Struct` parameter, `cell` a field the generated structure does not have
+        // (an `AtomicU64`): the effect is recorded in the function's list of stores
+        if name == "store" && m.args.len() == 1 && self.mode == Mode::R {
+            if let (Some(st), Expr::Field(f)) = (self.rstores.clone(), &*m.receiver) {
+                if let (Some(base), Member::Named(cell), Expr::Path(_)) = (path_ident(&f.base), &f.member, &*f.base) {
+                    let bt = self.vars.get(&base).cloned().unwrap_or_default();
+                    let sname = bt.strip_prefix("Gen.").unwrap_or("").to_string();
+                    let dropped = self.reg.struct_fields.get(&sname).map(|m| !m.contains_key(&cell.to_string())).unwrap_or(false);
+                    if dropped && !self.mut_vars.contains(&base) {
+                        self.expect = Some("UInt64".into());
+                        let v = self.expr(&m.args[0])?;
+                        self.emit(format!("{st} := {st} ++ [(\"{base}.{cell}\", {v})]"));
+                        return Ok(Some("()".into()));
+                    }
+                }
+            }
+            return Err("store into something other than an atomic cell of a parameter".into());
+        }
+        // `(reader as &mut dyn Read).take(n)`
+        if name == "take" && m.args.len() == 1 && self.mode == Mode::R {
+            let mut r = &*m.receiver;
+            loop {
+                match r {
+                    Expr::Paren(p) => r = &*p.expr,
+                    Expr::Cast(c) => r = &*c.expr,
+                    Expr::Reference(x) => r = &*x.expr,
+                    _ => break,
+                }
+            }
+            if matches!(r, Expr::Path(_)) && path_ident(r) == self.reader && self.reader.is_some() {
+                self.expect = Some("UInt64".into());
+                let n = self.expr(&m.args[0])?;
+                return Ok(Some(format!("(Rs.R.take {n})")));
+            }
+        }
         let rt = match self.type_of(&m.receiver) {
             Some(t) => t,
             None => return Ok(None),
@@ -312,5 +467,159 @@ impl<'a> Tr<'a> {
             }
         }
         Ok(())
+    }
+
+    /// Types the generic synthesis does not see: enum variant constructors `Enum::Variant(..)` / `Enum::Variant { .. }`.
+    pub(crate) fn t6r_type_of(&self, e: &Expr) -> Option<String> {
+        let path = match e {
+            Expr::Call(c) => match &*c.func {
+                Expr::Path(p) => &p.path,
+                _ => return None,
+            },
+            Expr::Struct(s) => &s.path,
+            _ => return None,
+        };
+        if path.segments.len() < 2 {
+            return None;
+        }
+        let first = path.segments[path.segments.len() - 2].ident.to_string();
+        let name = path_last(path);
+        let vs = self.reg.enums.get(&first)?;
+        if vs.iter().any(|(v, p)| *v == name && *p) { Some(format!("Gen.{first}")) } else { None }
+    }
+
+    pub(crate) fn t6r_is_variant_struct(&self, s: &ExprStruct) -> bool {
+        if s.path.segments.len() < 2 {
+            return false;
+        }
+        let first = s.path.segments[s.path.segments.len() - 2].ident.to_string();
+        variant_fields(&first, &path_last(&s.path)).is_some() && self.reg.enums.contains_key(&first)
+    }
+
+    /// `Enum::Variant { a: x, b }` → `(Gen.Enum.Variant x b)` (arguments in declaration order; the initialisers are
+    /// evaluated in source order)
+    pub(crate) fn t6r_variant_struct(&mut self, s: &ExprStruct) -> R<String> {
+        let first = s.path.segments[s.path.segments.len() - 2].ident.to_string();
+        let name = path_last(&s.path);
+        let fields = variant_fields(&first, &name).ok_or("variant fields")?;
+        if s.rest.is_some() {
+            return Err("struct update syntax".into());
+        }
+        let mut vals: HashMap<String, String> = HashMap::new();
+        for f in &s.fields {
+            if let Member::Named(n) = &f.member {
+                let v = self.expr(&f.expr)?;
+                vals.insert(n.to_string(), v);
+            } else {
+                return Err("unnamed field".into());
+            }
+        }
+        let mut args = vec![];
+        for f in &fields {
+            args.push(vals.get(f).cloned().ok_or(format!("missing field {f}"))?);
+        }
+        Ok(format!("(Gen.{first}.{name} {})", args.join(" ")))
+    }
+
+    /// Statement-level `if let PAT = e { A } else { B }`: the two-armed statement-level `match`.
+    pub(crate) fn t6r_if_let(&mut self, i: &ExprIf, l: &ExprLet) -> R<()> {
+        let pat = &*l.pat;
+        let scrut = &*l.expr;
+        let then_b = &i.then_branch;
+        let m: ExprMatch = match &i.else_branch {
+            Some((_, e)) => syn::parse_quote!(match #scrut { #pat => #then_b, _ => #e }),
+            None => syn::parse_quote!(match #scrut { #pat => #then_b, _ => {} }),
+        };
+        self.stmt_match(None, &m)
+    }
+
+    /// A `match` used as a value whose arms may leave the function with `return Ok(..)`: emitted as the do-element
+    /// `let t ← match … with | p => stmts; pure v` (a `return` inside an arm then ends the whole function).
+    pub(crate) fn t6r_match_elem(&mut self, m: &ExprMatch, exp: Option<String>) -> R<String> {
+        if self.nontail_sub > 0 {
+            return Err("return inside a nested value block".into());
+        }
+        if self.in_loop > 0 {
+            return Err("value match with return inside a loop".into());
+        }
+        let arms: Vec<&Arm> = m.arms.iter().filter(|a| cfg_on(&a.attrs)).collect();
+        if arms.iter().any(|a| a.guard.is_some()) {
+            return Err("match guard".into());
+        }
+        if arms.iter().any(|a| matches!(a.pat, Pat::Lit(PatLit { lit: Lit::Int(_), .. }) | Pat::Range(_))) {
+            return Err("value match on integers with return".into());
+        }
+        let hint = exp.or_else(|| self.hint.take()).or_else(|| self.type_of(&Expr::Match(m.clone())));
+        self.hint = None;
+        let scrut_ty = self.type_of(&m.expr);
+        let scrut = self.expr(&m.expr)?;
+        let t = self.fresh();
+        match &hint {
+            Some(h) => self.emit(format!("let {t} : {h} ← match {scrut} with")),
+            None => self.emit(format!("let {t} ← match {scrut} with")),
+        }
+        let base = self.indent;
+        for a in &arms {
+            let p = self.pat_lean(&a.pat)?;
+            self.indent = base + 2;
+            self.emit(format!("| {p} =>"));
+            self.indent = base + 3;
+            let saved_vars = self.vars.clone();
+            let saved_mut = self.mut_vars.clone();
+            let saved_untyped = self.untyped.clone();
+            self.bind_pat_vars(&a.pat, scrut_ty.as_deref());
+            let outer_rest = std::mem::take(&mut self.rest);
+            let r: R<()> = (|| {
+                if let Expr::Return(_) = &*a.body {
+                    return self.stmt_expr(&a.body);
+                }
+                self.expect = hint.clone();
+                let v = self.expr(&a.body)?;
+                self.emit(format!("pure {v}"));
+                Ok(())
+            })();
+            self.rest = outer_rest;
+            self.vars = saved_vars;
+            self.mut_vars = saved_mut;
+            self.untyped = saved_untyped;
+            self.indent = base;
+            r?;
+        }
+        Ok(t)
+    }
+
+    /// External layer constructors followed by `?` (vocabulary table, semantics in `Basic/RsGlue.lean`):
+    /// `AesReader::new(r, mode, size).validate(pw)?`, `ZipCryptoReader::new(r, pw).validate(v)?`.
+    pub(crate) fn t6r_ext_try(&mut self, m: &ExprMethodCall) -> R<Option<String>> {
+        if self.mode != Mode::R || m.method != "validate" || m.args.len() != 1 {
+            return Ok(None);
+        }
+        let c = match &*m.receiver {
+            Expr::Call(c) => c,
+            _ => return Ok(None),
+        };
+        let p = match &*c.func {
+            Expr::Path(p) if p.path.segments.len() >= 2 => p,
+            _ => return Ok(None),
+        };
+        let first = p.path.segments[p.path.segments.len() - 2].ident.to_string();
+        if path_last(&p.path) != "new" {
+            return Ok(None);
+        }
+        let (op, n, ty) = match first.as_str() {
+            "AesReader" => ("Rs.R.aes_validate", 3, "(Option (Rs.AesValid Gen.AesMode))"),
+            "ZipCryptoReader" => ("Rs.R.zc_validate", 2, "(Option (Rs.ZcValid Gen.ZipCryptoValidator))"),
+            _ => return Ok(None),
+        };
+        if c.args.len() != n {
+            return Err(format!("{first}::new with {} arguments", c.args.len()));
+        }
+        let mut args = vec![];
+        for a in &c.args {
+            args.push(self.expr(a)?);
+        }
+        args.push(self.expr(&m.args[0])?);
+        self.uses_ext = true;
+        Ok(Some(self.bind_typed(format!("{op} ext {}", args.join(" ")), Some(ty.into()))))
     }
 }
